@@ -149,17 +149,36 @@ func (s *Solver) Reset() {
 	default:
 		s.send("(reset)")
 		s.send(fmt.Sprintf("(set-option :timeout %d)", s.TimeoutMs))
-		// keep models total for get-value
-		s.send("(set-option :model.completion true)")
 	}
 	s.send(preludeADT)
 }
 
 // CheckSat runs (check-sat) and returns "sat", "unsat" or "unknown".
+// guard kills the solver process if it does not answer in time.
+func (s *Solver) guard() func() {
+	if s.dead {
+		return func() {}
+	}
+	t := time.AfterFunc(time.Duration(s.TimeoutMs)*time.Millisecond+15*time.Second, func() {
+		s.dead = true
+		s.cmd.Process.Kill()
+	})
+	return func() { t.Stop() }
+}
+
+// Dead reports whether the process has been killed or has exited.
+func (s *Solver) Dead() bool { return s.dead }
+
 func (s *Solver) CheckSat() string {
+	if s.dead {
+		s.Unknown++
+		return "unknown"
+	}
 	t0 := time.Now()
 	s.send("(check-sat)")
+	stop := s.guard()
 	r, err := s.readSexp()
+	stop()
 	s.Time += time.Since(t0)
 	s.Queries++
 	if err != nil {
@@ -185,8 +204,13 @@ func (s *Solver) GetValues(exprs []string) ([]string, error) {
 	if len(exprs) == 0 {
 		return nil, nil
 	}
+	if s.dead {
+		return nil, fmt.Errorf("solver dead")
+	}
 	s.send("(get-value (" + strings.Join(exprs, " ") + "))")
+	stop := s.guard()
 	r, err := s.readSexp()
+	stop()
 	if err != nil {
 		return nil, err
 	}
